@@ -24,7 +24,8 @@ RULE = ('programs of the gen_scripts grammar: exhaustive small statements (Y = t
         '(constant sub-expressions that warn/raise are accepted and evaluated; variable/called-function clashes are '
         'rejected with ParserError), and a stream of still-open known-defect inputs. '
         'Each program x one finite data vector (regimes: moderate, underflow range, near-overflow, signed zeros, '
-        'subnormals, huge/small mixes, integers) x every feasible t, on ONE instance whose provenance (fresh, copy, '
+        'subnormals, huge/small mixes, integers; instance dtype float64 / float32 / int / object) x every feasible t, on '
+        'ONE instance whose provenance (fresh, copy, '
         'reindexed) and per-series assignment history (list, tuple, scalar, ndarray, one ndarray for several series, '
         'another series own array, views, constructor keywords, replace_values, element-wise) vary; the pass is run '
         'by _evaluate and, when free of floating-point faults, also through solve_t for one iteration; the period and '
@@ -123,6 +124,14 @@ def stress_programs():
     out.append(gs.Program([gs.Equation(Y, B('*', C('exp', (V('log', -2),)), C('max', (P_('min', 1), E_('abs')))))]))
     out.append(gs.Program([gs.Equation(V('log'), B('-', P_('exp', -1), C('np.sqrt', (V('max', 10),)))),
                            gs.Equation(V('min'), B('*', V('log'), E_('float')))]))
+    # verbatim fragments whose text contains the pipeline's own markers, first / middle / last / several per statement
+    Vb = gs.Verb
+    for i, f in enumerate(ec.META_VERBS):
+        g, h = ec.META_VERBS[(i + 7) % len(ec.META_VERBS)], ec.META_VERBS[(i + 13) % len(ec.META_VERBS)]
+        out.append(gs.Program([gs.Equation(Y, B('+', Vb(f), B('==', V('X'), V('Z'))))]))
+        out.append(gs.Program([gs.Equation(Y, B('+', B('*', V('X'), Vb(f)), V('Z', -1)))]))
+        out.append(gs.Program([gs.Equation(Y, B('+', B('-', V('X', -1), T('param', 'a', None)), Vb(f)))]))
+        out.append(gs.Program([gs.Equation(Y, B('+', B('+', B('*', Vb(f), V('X')), B('*', Vb(g), T('error', 'e', 1))), Vb(h)))]))
     # parameters / errors with offsets, keyword-ish names, lazy constructs
     out.append(gs.Program([gs.Equation(Y, B('+', B('*', T('param', 'in_', -2), V('is_open', 1)), T('error', 'eps_1', -1)))]))
     out.append(gs.Program([gs.Equation(Y, I(V('Pin', -1), B('and', B('>', V('not_X'), N('1')), B('<', V('orx', 1), N('2'))), V('For', -2)))]))
@@ -135,7 +144,8 @@ def stress_programs():
     return out
 
 
-FINDING_TAGS = ('space-before-index', 'underscore-name-mangled', 'exponent-literal')
+FINDING_TAGS = ('space-before-index', 'underscore-name-mangled', 'exponent-literal', 'verbatim-brace-counted',
+                'verbatim-paren-counted', 'verbatim-hash-is-comment')
 
 
 def finding_cases(seed):
@@ -152,6 +162,12 @@ def finding_cases(seed):
     for nm in gs.MANGLED_POOL:
         add('underscore-name-mangled', gs.Program([gs.Equation(Y, B('+', V(nm), N('1')))]))
     add('underscore-name-mangled', gs.Program([gs.Equation(V('_Y1'), B('*', V('X', -1), N('2')))]))
+    add('verbatim-brace-counted', gs.Program([gs.Equation(Y, B('+', gs.Verb("len('{')"), V('X')))]))
+    add('verbatim-brace-counted', gs.Program([gs.Equation(Y, B('*', V('X', -1), gs.Verb("len('}}')")))]))
+    add('verbatim-paren-counted', gs.Program([gs.Equation(Y, B('+', gs.Verb("len('(')"), V('X')))]))
+    add('verbatim-paren-counted', gs.Program([gs.Equation(Y, B('*', V('X', -1), gs.Verb("len(')')")))]))
+    add('verbatim-hash-is-comment', gs.Program([gs.Equation(Y, B('+', gs.Verb("len('#')"), V('X')))]))
+    add('verbatim-hash-is-comment', gs.Program([gs.Equation(Y, B('*', V('X', -1), gs.Verb("len('a # b')")))]))
     add('exponent-literal', gs.Program([gs.Equation(Y, B('*', N('1e5'), V('X')))]))
     add('exponent-literal', gs.Program([gs.Equation(Y, B('+', V('X'), N('2.5e-1')))]))
     return out
@@ -233,9 +249,18 @@ def quick_cases(ctx):
             prog2, used = ec.with_function_names(rng, prog)
             if used:
                 cases.append(mkcase(prog2, gs.render(prog2, L), L.wrap_rhs, stream='fnames:' + lname, seed=seed))
+        if i % 8 == 2:      # ... / with identifiers of up to 64+ characters (shared 32/64-character prefixes)
+            prog2 = ec.with_long_names(rng, prog)
+            cases.append(mkcase(prog2, gs.render(prog2, L), L.wrap_rhs, stream='longnames:' + lname, seed=seed))
         if i % 4 == 3:      # ... / with inline verbatim fragments in every equation
             prog2 = ec.with_inline_verbatim(rng, prog)
             cases.append(mkcase(prog2, gs.render(prog2, L), L.wrap_rhs, stream='verbatim:' + lname, seed=seed))
+    # scale: 50+ terms in one equation, 100+ equations
+    for i in range((3 if quick else 40) * ctx.scale):
+        for prog, kind in ((ec.many_terms_program(rng, rng.randint(50, 70)), 'many-terms'),
+                           (ec.many_equations_program(rng, rng.randint(100, 130)), 'many-equations')):
+            L = gs.random_layout(rng) if i % 2 else gs.PLAIN
+            cases.append(mkcase(prog, gs.render(prog, L), L.wrap_rhs, stream='big:' + kind, seed=seed))
     # D. sub-streams: verbatim fragments, named periods, LHS offsets
     rng = ctx.sub_rng('sub')
     n_sub = (450 if quick else 5000) * ctx.scale
@@ -377,10 +402,17 @@ def observe_(case, rep, want_impl=True):
     rep.dist['share:' + (plan['share'][0] if plan['share'] else 'none')] += 1
     for md in set(plan['modes'].values()):
         rep.dist['fill:' + md] += 1
+    rep.dist['dtype:' + plan['dtype']] += 1
+    rep.dist['longest-name:' + ec.length_bucket(prog)] += 1
+    want_dt = np.dtype(ec.DTYPES[plan['dtype']])
     try:
         m = ec.build_filled(b.Model, span if span else range(n), data0, plan)
-        held = {nm: np.array(m.__dict__['_' + nm], dtype=float) for nm in data0}
+        held = {nm: ec.as_float(m.__dict__['_' + nm]).copy() for nm in data0}
         bad = ec.same_arrays(data0, held)
+        # {parameters} and <errors> are ordinary series: every series of the instance has the instance's dtype
+        wrong = {nm: str(m.__dict__['_' + nm].dtype) for nm in m.names if m.__dict__['_' + nm].dtype != want_dt}
+        if wrong:
+            violate('series-dtype', f'instance created with dtype={plan["dtype"]} but series have {wrong}')
     except Exception as e:  # noqa: BLE001
         bad = [f'{type(e).__name__}: {e}']
     if bad:
@@ -402,10 +434,10 @@ def observe_(case, rep, want_impl=True):
         rep.dist['t-form:' + tlabel] += 1
         exc = evaluate_with(m, t_eval, EXTRA_FUNCS)
         ec.remove_recorders(m)
-        got = {nm: np.array(m.__dict__['_' + nm], dtype=float) for nm in data0}
+        got = {nm: ec.as_float(m.__dict__['_' + nm]).copy() for nm in data0}
         reads = [(nm, ec.norm_pos(k, n)) for op, nm, k in log if op == 'r']
         writes = [(nm, ec.norm_pos(k, n)) for op, nm, k in log if op == 'w']
-        if first is None:
+        if first is None and plan['dtype'] == 'float64':     # the Lean driver instance is IEEE double
             first = {'t': t, 'exc': exc, 'data': {nm: [ec.bits(x) for x in got[nm]] for nm in sorted(got)},
                      'reads': [list(c) for c in reads], 'writes': [list(c) for c in writes]}
         if exc != exc_ref:
@@ -431,7 +463,7 @@ def observe_(case, rep, want_impl=True):
         # floating-point faults under NumPy's default error state (underflow is not one) and leaves finite values, one
         # iteration must complete and leave exactly the values of the pass
         clean = (not faults and exc_ref is None and not uses_extra and
-                 all(np.all(np.isfinite(v)) for v in ref.values()))
+                 all(np.all(np.isfinite(ec.as_float(v))) for v in ref.values()))
         if clean:
             ec.restore(m, data0)
             try:
@@ -451,7 +483,7 @@ def observe_(case, rep, want_impl=True):
                 violate('solve_t-rejects-clean-pass', f't={t}: the pass has no floating-point fault and finite results '
                         f'({plan["regime"]} data) but solve_t({t_solve!r} [{slabel}], {kw}) raised {exc_s}')
             else:
-                d3 = ec.same_arrays(ref, {nm: np.array(m.__dict__['_' + nm], dtype=float) for nm in data0})
+                d3 = ec.same_arrays(ref, {nm: ec.as_float(m.__dict__['_' + nm]).copy() for nm in data0})
                 if d3:
                     nm, p, a, c = d3[0]
                     violate('value-mismatch' if (nm, p) in set(w_ref) else 'write-outside-lhs',
@@ -552,6 +584,8 @@ def compare(case, impl, forms, evalp, rep):
                 rep.disagree('eval_pass read sequence: model != impl', case, evalp['reads'], first['reads'])
         else:
             rep.dist['eval_pass:' + evalp.get('why', '?')] += 1
+            if evalp.get('why') == 'driver-error':
+                rep.disagree('eval_pass: driver error', case, evalp.get('error'), None)
 
 
 def drive_cases(ctx, cases, impls):
@@ -588,7 +622,7 @@ def drive_cases(ctx, cases, impls):
         k += 1
         evalp = None
         if has_eval:
-            evalp = json.loads(outs[k]) if not outs[k].startswith('!') else {'ok': False, 'why': outs[k]}
+            evalp = json.loads(outs[k]) if not outs[k].startswith('!') else {'ok': False, 'why': 'driver-error', 'error': outs[k]}
             k += 1
         res.append((case, impl, forms, evalp))
     return res
